@@ -285,6 +285,11 @@ def corpus():
                 out.append(raw_case(s, implicit, ver, 0, 'corpus'))
     out.append(Case('abbrev ' + hexs('300.1.1.1'), 'abbrev/corpus', ('abbrev', '300.1.1.1')))
     out.append(Case('abbrev ' + hexs('300'), 'abbrev/corpus', ('abbrev', '300')))
+    # F18: tuple members beyond the int-to-str digit limit (the error message must not decide the error class)
+    big = 10 ** 5000
+    for vv, q in ((big, 8), (1, big), (-big, 8), (big, big)):
+        for pver in (None, 4, 6):
+            out.append(Case(_line('tuple', plist([str(vv), str(q)]), False, pver, 0), 'tuple/corpus', ('tuple', vv, q, pver, 0)))
     return out
 
 
@@ -325,11 +330,13 @@ def generate(rng, tier):
             for bad in (mask ^ (1 << rng.randrange(w)), rng.getrandbits(w) | 5 if w else 5):
                 strings.append('%s/%s' % (a, ref_addr_str(ver, bad & full)))
         a = ref_addr_str(ver, rand_value(rng, w))
-        for q in (-1, w + 1, w + 2, 1 << 40, -w, 129, 33, 255, 256):
-            strings.append('%s/%d' % (a, q))
+        big = 10 ** rng.choice([4300, 4301, 5000, 6000]) + rng.getrandbits(40)     # beyond the interpreter's int-to-str limit
+        for q in (-1, w + 1, w + 2, 1 << 40, -w, 129, 33, 255, 256, big, -big):
+            if abs(q) < (1 << 64):
+                strings.append('%s/%d' % (a, q))
             for pver in (None, ver):
                 cases.append(Case(_line('tuple', plist(['5', str(q)]), False, pver, 0), 'tuple/range', ('tuple', 5, q, pver, 0)))
-        for vv in (-1, full + 1, full, 1 << 130, 0, (1 << 32) - 1, 1 << 32):
+        for vv in (-1, full + 1, full, 1 << 130, 0, (1 << 32) - 1, 1 << 32, big, -big):
             for pver in (None, ver):
                 q = rng.choice([0, 8, w, 32, 33])
                 cases.append(Case(_line('tuple', plist([str(vv), str(q)]), False, pver, 0),
